@@ -237,6 +237,7 @@ Pre(S, a) == [BeginBlocks(S, S.now + a.dt, Nb(a)) EXCEPT !.now = S.now + a.dt]
 
 Tx(S, a) ==
     CASE a.a = "Block"   -> R("ok", "", S)
+      [] a.a = "XImport" -> R("ok", "", S)      \* genesis export + import: identity on the state
       [] a.a = "Send"    -> DoSend(S, a)
       [] a.a = "Recv"    -> DoRecv(S, a)
       [] a.a = "Ack"     -> DoAck(S, a)
